@@ -167,6 +167,19 @@ class ConcHarness:
         pool = scen.make_pool(ct, w.backend, "async", max_connections=self.max_connections,
                               max_keepalive_connections=self.max_keepalive, keepalive_expiry=self.keepalive_expiry)
         w.roots.append(pool)
+        # which task created each connection (root-cause fact: a connection left CONNECTING that the victim's own clean-up created is a
+        # different defect from one that another task had created for it just before it died)
+        created_by: dict = {}
+        self._created_by = created_by
+        _orig_create = pool.create_connection
+
+        def _mc_create_connection(origin):
+            conn = _orig_create(origin)
+            import asyncio as _a
+            t_ = _a.current_task()
+            created_by[id(conn)] = t_.get_name() if t_ is not None else None
+            return conn
+        pool.create_connection = _mc_create_connection
         script = None
         if self.h2script is not None:
             script = H2Script(topo, self.h2script)
@@ -421,6 +434,12 @@ class ConcHarness:
             trig = f"cancel-{cd['style']}"
             base.update(trigger=trig, site=cd["where"], site_tail=cd["where"].split(" > ")[-1].split(":")[-1],
                         in_httpcore_shield=cd["httpcore_shield"])
+            if cd.get("assigned_while_queued") is not None:
+                # the victim was parked in the pool queue when the cancellation was requested; which task created the connection(s)
+                # that are stuck afterwards - the victim's own clean-up, or another task on the victim's behalf?
+                stuck_conns = [c_ for c_ in pool.connections if conn_stuck(c_)]
+                base["queued_victim"] = True
+                base["stuck_created_by_victim"] = any(self._created_by.get(id(c_)) == canc[0]["name"] for c_ in stuck_conns)
         elif inj:
             op = w.net.ledger[inj[0][0]]
             trig = f"fault-{inj[0][1]}"
@@ -742,9 +761,13 @@ def scenarios(pid, tier):
             if ct in ("h11", "tunnel", "h2alpn") or not quick:
                 # a trace callback that suspends: the callbacks of the clean-up path run inside the library's shields
                 out.append(S(ct, ["req:a:v", "req:b"], max_connections=1, cancels=1, styles=["scope"], trace=True))
+            if ct in ("h11", "h2alpn") or not quick:
+                # the victim is the QUEUED request (cancelled while the connection ahead of it is being used / closed / evicted) ...
+                out.append(S(ct, ["req:a", "req:b:v"], max_connections=1, cancels=1, styles=["scope", "native"]))
+                # ... or is cancelled in its own code while it holds a streamed response open
+                out.append(S(ct, ["hold:a:v", "req:b"], max_connections=1, cancels=1, styles=["scope", "native"]))
             if not quick:
                 out.append(S(ct, ["early:a:v", "req:a"], max_connections=1, cancels=1, styles=["scope", "native"]))
-                out.append(S(ct, ["hold:a:v", "req:b"], max_connections=1, cancels=1, styles=["scope", "native"]))
     if pid == "C16":
         for ct in (["h11", "h2alpn"] if quick else ["h11", "h11tls", "h2alpn", "fwd", "tunnel", "socks"]):
             e = scen.CONN_TYPES[ct]["proto"] != "h2"      # cold HTTP/2: see the note in the C01/C04/C07 block
